@@ -3,3 +3,4 @@ import UgoVerif.Props.C15
 import UgoVerif.Props.C17
 import UgoVerif.Props.C13
 import UgoVerif.Props.C20
+import UgoVerif.Props.C01
